@@ -18,8 +18,13 @@ class NoCertificate(Exception):
 
 class Composite:
     def __init__(self, M, y, gkind="none", lam=0.0, lo=None, hi=None, lam2=0.0, z=None):
-        self.cplx = np.iscomplexobj(M) or np.iscomplexobj(y) or (z is not None and np.iscomplexobj(z))
+        def _c(a):
+            return a is not None and np.iscomplexobj(a) and bool(np.any(np.imag(a) != 0))
+        self.cplx = _c(M) or _c(y) or _c(z)
         dt = np.complex128 if self.cplx else np.float64
+        if not self.cplx:
+            M, y = np.real(M), np.real(y)
+            z = None if z is None else np.real(z)
         self.M = np.asarray(M, dtype=dt)
         self.y = np.asarray(y, dtype=dt).ravel()
         self.n = self.M.shape[1]
